@@ -71,6 +71,7 @@ def run_check(pid, tier, seed, replay=None):
     known_hits = []
     stats = {"evaluations": 0, "distinct": set(), "classes": {}, "samples": [], "per_feature_set": {}}
     kf = core.known_findings()
+    all_results = {}
     if ok:
         for fs in fsets:
             fk = core.featkey(list(fs) + list(extra))
@@ -83,11 +84,17 @@ def run_check(pid, tier, seed, replay=None):
                 if rp.get("case"):
                     cases = [rp["case"]]
             else:
-                cases = corpus_cases(pid, fs) + prop.cases(tier, rng.fork(fk), schema, fs)
+                cases = corpus_cases(pid, fs) + prop.cases(tier, rng.fork('all' if getattr(prop, 'SAME_CASES_ALL_FEATURES', False) else fk), schema, fs)
             lines = [c for c in cases]
             m = core.run_model(lines, fs)
             i = core.run_impl(lines, fs, extra_features=extra)
             stats["per_feature_set"][fk] = len(lines)
+            if hasattr(prop, "cross_features"):
+                all_results[fk] = {l.split("\t", 1)[0]: (l, m.get(l.split("\t", 1)[0]), i.get(l.split("\t", 1)[0])) for l in lines}
+            if hasattr(prop, "cross"):
+                res = {l.split("\t", 1)[0]: (l, m.get(l.split("\t", 1)[0]), i.get(l.split("\t", 1)[0])) for l in lines}
+                for (cl, want, got, why) in prop.cross(res):
+                    mismatches.append({"features": fk, "case": cl, "model": want, "implementation": got, "why": why})
             for line in lines:
                 cid = line.split("\t", 1)[0]
                 ma, ia = m.get(cid), i.get(cid)
@@ -109,6 +116,9 @@ def run_check(pid, tier, seed, replay=None):
             for key in ("__errors__",):
                 if m.get(key):
                     problems.append(("driver", "model driver failed on a shard: " + m[key][:500]))
+
+    if hasattr(prop, "cross_features") and all_results:
+        mismatches += prop.cross_features(all_results)
 
     # 5. known-finding witnesses (cases where the property itself, not the model, is the oracle)
     for w in getattr(prop, "WITNESSES", []):
